@@ -34,15 +34,7 @@ int main() {
 		guarded([&]() {
 			Toks t(line); t.expect("incl"); char mode = t.word()[0];
 			NFA na = readW(t), nb = readW(t);
-			FA a, b;
-			if (mode == 'F' && !na.edges.empty() && na.edges == nb.edges) {
-				// same edge list: the operands are produced as an application would, as two copies of one automaton that got their own start
-				// and final states afterwards (copies share the copy-on-write transition table)
-				NFA base; base.edges = na.edges; FA m = mkNfa(base, 'F');
-				auto fwd = m.GetAlphabet()->GetSymbolTransl(); FA::SymbolType x = (*fwd)("x");
-				a = m; for (U s : na.starts) a.SetStateStart(s, x); for (U f : na.finals) a.SetStateFinal(f);
-				b = m; for (U s : nb.starts) b.SetStateStart(s, x); for (U f : nb.finals) b.SetStateFinal(f);
-			} else { a = mkNfa(na, mode); b = mkNfa(nb, mode); }
+			FA a, b; mkPair(na, nb, mode, a, b);      // same edge list: two copies of one automaton with their own start / final states (nfa_common.hh)
 			std::ostringstream os;
 			os << "R";
 			for (int sel = 0; sel < 3; ++sel) os << ' ' << verdict(a, b, sel);
